@@ -140,6 +140,49 @@ def tuned_services(rng, mtu, idx):
     return services
 
 
+def width_run_services(rng, idx):
+    """Runs of 2+ CONSECUTIVE attributes whose types (descriptors after a characteristic value), declared
+    UUIDs (characteristic declarations, service declarations) have the same width - 16, 32 or 128 bit - and
+    32-bit next to 128-bit (both travel as 16 octets): everything a response that lists types or UUID-bearing
+    values has to size.  All world-readable, so that the listing responses run to the end of the run."""
+    def u(width, n):
+        return gen_uuid(rng, width, 0x800 + n)      # 16-bit: 0xA8xx, clear of the tuned 0xA7xx types
+
+    order = [16, 32, 128]
+    rng.shuffle(order)
+    services = []
+    # (a) a characteristic value followed by k descriptors of the same width (Find Information)
+    chars = []
+    for w in order + [32, rng.choice([32, 128])]:
+        k = rng.choice([1, 2, 3, 5])
+        w2 = w if rng.random() < 0.7 else rng.choice([32, 128])
+        c = {'uuid': u(w, idx), 'props': 0x02, 'perm': 0x01, 'len': rng.choice([0, 1, 5, 20]), 'index': idx,
+             'kind': 'static', 'descs': []}
+        idx += 1
+        for _ in range(k):
+            c['descs'].append({'uuid': u(w2, idx), 'perm': 0x01, 'len': rng.choice([0, 1, 8]), 'index': idx})
+            idx += 1
+        chars.append(c)
+    services.append({'uuid': u(rng.choice([16, 32, 128]), 0x7E0), 'primary': True, 'chars': chars, 'includes': []})
+    # (b) 2-4 consecutive characteristic declarations per width, no descriptors (Read By Type of 0x2803:
+    #     5+2 / 5+16 octet values; a 32-bit UUID is declared in its 128-bit form)
+    chars = []
+    for w in order:
+        for _ in range(rng.choice([2, 3, 4])):
+            chars.append({'uuid': u(w, idx), 'props': 0x02, 'perm': 0x01, 'len': rng.choice([0, 2]), 'index': idx,
+                          'kind': 'static', 'descs': []})
+            idx += 1
+    services.append({'uuid': u(rng.choice([16, 32, 128]), 0x7E1), 'primary': True, 'chars': chars, 'includes': []})
+    # (c) 2-4 consecutive services per width, most of a run sharing one UUID (Read By Group Type, Find By Type Value)
+    for w in order:
+        shared = u(w, 0x7D0 + w)
+        for _ in range(rng.choice([2, 3, 4])):
+            services.append({'uuid': shared if rng.random() < 0.7 else u(w, idx), 'primary': rng.random() < 0.85,
+                             'chars': [], 'includes': []})
+            idx += 1
+    return services, idx
+
+
 def gen_db_spec(rng, perm_base, n_chars=None, notify_bias=False, lens=None, target_mtu=None):
     """Every permission byte appears on some attribute across the cases: characteristic k of
     the case takes perm_base + k (mod 256); descriptors take random bytes."""
@@ -171,7 +214,7 @@ def gen_db_spec(rng, perm_base, n_chars=None, notify_bias=False, lens=None, targ
                  'kind': rng.choice(KINDS), 'descs': []}
             idx += 1
             for _d in range(rng.choice([0, 0, 1, 2])):
-                c['descs'].append({'uuid': rng.choice(['0129', '0429', gen_uuid(rng, 128, idx)]),
+                c['descs'].append({'uuid': rng.choice(['0129', '0429', gen_uuid(rng, 128, idx), gen_uuid(rng, width, 0x800 + idx)]),
                                    'perm': rng.randrange(256) if rng.random() < 0.5 else 0x01,
                                    'len': rng.choice([0, 1, 8, 22, 23, 100]), 'index': idx})
                 idx += 1
@@ -179,6 +222,8 @@ def gen_db_spec(rng, perm_base, n_chars=None, notify_bias=False, lens=None, targ
         services.append({'uuid': gen_uuid(rng, rng.choice([16, 32, 128]), 700 + s),
                          'primary': rng.random() < 0.8, 'chars': chars,
                          'includes': [rng.randrange(s)] if s and rng.random() < 0.4 else []})
+    runs, idx = width_run_services(random.Random(rng.getrandbits(32)), idx)
+    services += runs
     if target_mtu:
         services += tuned_services(rng, target_mtu, idx)
     return services
@@ -202,6 +247,53 @@ class Gen:
                       and m.type != bytes.fromhex(TUNED_GROUP_UUID)]
         self.tuned_services = [m for m in self.models if m.role == 'service'
                                and m.value == bytes.fromhex(TUNED_SERVICE_UUID)]
+        # runs of >= 2 neighbours whose UUID has the same on-the-wire size, by what a listing response lists:
+        #   type runs   consecutive handles, attribute TYPE                    (Find Information)
+        #   decl runs   consecutive characteristic declarations, UUID in value  (Read By Type 0x2803)
+        #   svc runs    consecutive service declarations of one kind, UUID = value  (Read By Group Type,
+        #               Find By Type Value)
+        self.type_runs = self._runs(self.models, lambda m: m.type, consecutive_handles=True)
+        self.decl_runs = self._runs([m for m in self.models if m.role == 'chardecl' and m.value is not None],
+                                    lambda m: m.value[3:])
+        self.svc_runs = {t: self._runs([m for m in self.models if m.role == 'service' and m.type == bytes.fromhex(t)
+                                        and m.value is not None], lambda m: m.value) for t in ('0028', '0128')}
+
+    @staticmethod
+    def uuid_class(u: bytes) -> str:
+        # (a 32-bit UUID travels in its 128-bit form: Bluetooth base UUID with the 32 bits on top)
+        if len(u) == 2:
+            return 'uuid16'
+        return 'uuid32' if u[:12] == bytes.fromhex('FB349B5F8000008000100000') else 'uuid128'
+
+    def _runs(self, items, uuid_of, consecutive_handles=False):
+        """[(class, [models])] for every maximal run of >= 2 neighbours of one wire size; class is
+        uuid16-run / uuid32-run / uuid128-run / uuid32+128-run."""
+        runs, cur = [], []
+        for m in items:
+            if cur and len(uuid_of(m)) == len(uuid_of(cur[-1])) and \
+                    (not consecutive_handles or m.handle == cur[-1].handle + 1):
+                cur.append(m)
+            else:
+                if len(cur) >= 2:
+                    runs.append(cur)
+                cur = [m]
+        if len(cur) >= 2:
+            runs.append(cur)
+        out = []
+        for run in runs:
+            widths = sorted({int(self.uuid_class(uuid_of(m))[4:]) for m in run})
+            out.append(('uuid' + '+'.join(str(w) for w in widths) + '-run', run))
+        return out
+
+    def run_range(self, runs, want=None):
+        """(start, end, class) aimed at a run: from its first (or second-to-last) member to the end of the
+        database / the end of the run / one past it."""
+        rng = self.rng
+        cands = [x for x in runs if want is None or x[0] == want] or runs
+        cls, run = rng.choice(cands)
+        first = run[0].handle if rng.random() < 0.8 else run[max(0, len(run) - 2)].handle
+        end = rng.choice([0xFFFF, 0xFFFF, run[-1].handle, min(0xFFFF, run[-1].handle + 1)])
+        return first, max(first, end), cls
 
     # -- classes ----------------------------------------------------------------
     def rclass(self, m):
@@ -326,9 +418,14 @@ class Gen:
             pdu, label = ra.exchange_mtu(v), ('valid' if v >= 23 else 'below-23')
         elif op == ra.FIND_INFO_REQ:
             s, e = self.range()
+            cls = None
+            if self.type_runs and rng.random() < 0.4:
+                s, e, cls = self.run_range(self.type_runs, rng.choice([None, 'uuid32-run', 'uuid32-run', 'uuid32+128-run']))
             pdu = ra.find_information(s, e)
             label = 'handle-0' if s == 0 else 'start>end' if s > e else \
                 'valid' if any(s <= m.handle <= e for m in self.models) else 'none-match'
+            if cls:
+                label += '/' + cls
         elif op == ra.FIND_BY_TYPE_VALUE_REQ:
             s, e = self.range()
             t = rng.choice(self.types16 + [bytes.fromhex('0028')])
@@ -336,9 +433,20 @@ class Gen:
             val = rng.choice(cands).value if cands and rng.random() < 0.7 else self.value(mtu)[:30]
             if self.tuned_services and rng.random() < 0.3:
                 s, e, t, val = 1, 0xFFFF, bytes.fromhex('0028'), bytes.fromhex(TUNED_SERVICE_UUID)
+            cls = None
+            kind = rng.choice(['0028', '0028', '0128'])
+            if self.svc_runs[kind] and rng.random() < 0.3:
+                # the UUID of a run of services, in the form it travels in (16 or 128 bit)
+                s, e, cls = self.run_range(self.svc_runs[kind], rng.choice([None, 'uuid32-run']))
+                t = bytes.fromhex(kind)
+                val = self.by_handle[s].value
+                if rng.random() < 0.5:
+                    s = 1
             pdu = ra.find_by_type_value(s, e, struct.unpack('<H', t)[0], val)
             # the server has to read every attribute of that type in range to compare values
             label = self.range_label(s, e, t) if s and s <= e else ('handle-0' if s == 0 else 'start>end')
+            if cls:
+                label += '/' + cls
         elif op in (ra.READ_BY_TYPE_REQ, ra.READ_BY_GROUP_TYPE_REQ):
             s, e = self.range()
             t = self.a_type()
@@ -348,9 +456,22 @@ class Gen:
                     s, e = self.tuned_services[0].handle, 0xFFFF
             elif op == ra.READ_BY_TYPE_REQ and self.tuned_group and rng.random() < 0.25:
                 s, e, t = self.tuned_group[0].handle, self.tuned_group[-1].handle, bytes.fromhex(TUNED_GROUP_UUID)
+            cls = None
+            if rng.random() < 0.3:
+                if op == ra.READ_BY_TYPE_REQ and self.decl_runs:
+                    # characteristic declarations: values of 5+2 or 5+16 octets
+                    s, e, cls = self.run_range(self.decl_runs, rng.choice([None, 'uuid32-run', 'uuid32+128-run']))
+                    t = bytes.fromhex('0328')
+                elif op == ra.READ_BY_GROUP_TYPE_REQ:
+                    kind = rng.choice(['0028', '0028', '0128'])
+                    if self.svc_runs[kind]:
+                        s, e, cls = self.run_range(self.svc_runs[kind], rng.choice([None, 'uuid32-run']))
+                        t = bytes.fromhex(kind)
             pdu = (ra.read_by_type if op == ra.READ_BY_TYPE_REQ else ra.read_by_group_type)(s, e, t)
             label = 'bad-uuid-length' if len(t) not in (2, 16) else \
                 self.range_label(s, e, t, group=op == ra.READ_BY_GROUP_TYPE_REQ)
+            if cls:
+                label += '/' + cls
         elif op == ra.READ_REQ:
             hd = self.handle()
             pdu, label = ra.read(hd), self.hlabel(hd, self.rclass(self.by_handle.get(hd)))
@@ -485,7 +606,33 @@ async def send_one(hs, bearer, pdu, label, trail, r, wait=True):
         return
     if bearer.kind == 'eatt':
         r.ev('eatt_requests')
-    await hs.exchange(bearer, pdu, label, ctx_of(bearer, pdu, label), wait)
+    cls = label.rsplit('/', 1)[-1] if label.endswith('-run') else ''
+    bearer.pairing.key_class = cls
+    try:
+        got = await hs.exchange(bearer, pdu, label, ctx_of(bearer, pdu, label), wait)
+    finally:
+        bearer.pairing.key_class = ''
+    if cls and pdu:
+        what = {ra.FIND_INFO_REQ: 'find_information', ra.READ_BY_TYPE_REQ: 'read_by_type_declarations',
+                ra.READ_BY_GROUP_TYPE_REQ: 'read_by_group_type', ra.FIND_BY_TYPE_VALUE_REQ: 'find_by_type_value'}.get(pdu[0])
+        if what:
+            r.ev('uuid_run_requests')
+            r.ev(f'uuid_run_{what}')
+            if '32' in cls:
+                r.ev(f'uuid32_run_{what}')
+            # how much room the run had: listing responses that carried two or more entries
+            for rsp in got or ():
+                try:
+                    n = len({ra.FIND_INFO_REQ + 1: ra.parse_find_information_rsp, ra.READ_BY_TYPE_REQ + 1: ra.parse_read_by_type_rsp,
+                             ra.READ_BY_GROUP_TYPE_REQ + 1: ra.parse_read_by_group_type_rsp,
+                             ra.FIND_BY_TYPE_VALUE_REQ + 1: ra.parse_find_by_type_value_rsp}[rsp[0]](rsp)) if rsp and rsp[0] == pdu[0] + 1 else 0
+                except ra.Malformed:
+                    n = 0
+                if n >= 2:
+                    r.ev('uuid_run_responses_with_2plus_entries')
+                    r.ev(f'uuid_run_{what}_2plus_entries')
+                    if cls != 'uuid16-run':
+                        r.ev('uuid_run_wide_responses_with_2plus_entries')
     trail.append((bearer.kind, pdu[0] if pdu else -1, label))
 
 
